@@ -140,6 +140,7 @@ def _load_own_findings(ctx):
 
 NEED_CLASSES = ["bitflip", "byte-boundary", "truncate", "adaptive:remainder+vanishing", "adaptive:remainder+vanishing+recommit",
                 "adaptive:swap-rows:tq", "adaptive:swap-rows:cq", "adaptive:merkle-node:tq", "adaptive:merkle-node:cq", "adaptive:ood-value",
+                "structured-extend:merkle-node-vector:tq", "structured-extend:merkle-node-vector:cq", "structured-extend:merkle-node:tq",
                 "component-extend:ood.lagrange", "component-extend:commitments", "component-extend:fri.remainder", "component-truncate:tq.values",
                 "edit:fri-layer-added", "edit:gkr-proof-added", "edit:trace-meta", "field:nq", "field:nonce"]
 
@@ -186,13 +187,12 @@ def run(ctx):
                 "logged bytes with the wire-format components and must equal the model's observable event list for that shape; per-blob "
                 "trailing-bytes policy probed and compared with the model's Parse flags; unobservable events (Use/Compare) tied to the source "
                 "by ordered text anchors; falsifier: exhaustive single-bit flips of small proofs, boundary bytes, truncation/extension of the "
-                "proof and of EVERY length-prefixed component, every fixed-width field x boundary values, structural edits, and the "
+                "proof and of EVERY length-prefixed component, structure-aware extension of the count-prefixed parts of every batch Merkle proof (surplus node vector / digest with count bytes and length fixed), every fixed-width field x boundary values, structural edits, and the "
                 "position-dependent substitutions (remainder + multiple of the vanishing polynomial of the folded positions, with and without "
                 "recomputed commitment; swapped / duplicated rows; replaced / swapped Merkle nodes; OOD values); oracle: decoded content differs "
                 "=> rejected or parse error; distinct = distinct shapes + mutation classes")
     ctx.assumptions += [
         "in scope: AIRs without a Lagrange-kernel column (no GKR sub-protocol), at most one auxiliary trace segment (all that TraceInfo describes)",
-        "batch Merkle binding (C10 lists it as tested, not proved) is a hypothesis of C03_auth_binding_batch_partial; the single-opening form is proved",
         "the coin is modelled as a free term algebra over the absorbed values (hash_elements / merge / merge_with_int as injective constructors): "
         "that a different term yields different challenges/positions is a (probabilistic) property of the hash, exercised by the falsifier only",
         "Use/Compare events of the model are placed by reading the source; their order is re-checked against the source text on every run "
